@@ -217,7 +217,7 @@ func zzBody(v interface{}, present bool) io.ReadCloser {
 
 var zzBodyExprs = []string{"input.name", "input.qty", "input", "input.qty + 1"}
 var zzBodyMethods = []string{"POST", "PUT", "PATCH"}
-var zzContentTypes = []string{"", "application/json", "application/json; charset=utf-8", "text/plain"}
+var zzContentTypes = []string{"", "application/json", "application/json; charset=utf-8", "text/plain", "application/json-patch+json", "Application/JSON", "application/jsonrequest", "application/json; charset"}
 
 // zzItemBody builds a request body for type Item {name: str!, qty: int = 1}
 func zzItemBody() (v interface{}, present bool, shape string) {
